@@ -241,6 +241,37 @@ def intoType (tnum mnum : String → Nat) (k : Kind) (vs : IntoScan) : IntoType 
   | .enum => .enum (vs.map (intoVariant tnum mnum))
   | _ => .struct ((vs.map (intoVariant tnum mnum)).headD {})
 
+/-! ### Default -/
+
+/-- `fieldAttr` of `defaultHandler` (without the pairing): a field's Default attribute under the given switches. -/
+def defFieldAttr (c : Ctx) (flag expr : Bool) (f : Field) : Res DefaultFieldAttr :=
+  fromAttrs c.F c.traits (· == .default) (defaultFieldFromMeta flag expr f.shape) {} f.attrs
+
+/-- `variantAttr` of `defaultHandler`. -/
+def defVariantAttr (c : Ctx) (flag : Bool) (v : Variant) : Res DefaultTypeAttr :=
+  fromAttrs c.F c.traits (· == .default) (defaultTypeFromMeta { flag := flag, new := false, expression := false, bound := false }) {} v.attrs
+
+/-- `enum` numbers the (adjusted) default expressions: printed text and whether it is wrapped in `Into::into`. -/
+def defField (enum : String × Bool → Nat) (f : Field) (a : DefaultFieldAttr) : DefField :=
+  { name := identOf (fname f), expr := a.expression.map enum, flag := a.flag }
+
+/-- A field of a struct / enum variant, read the way the handler reads the fields of the value it builds: marker off,
+    expression on. -/
+def defFieldOf (c : Ctx) (enum : String × Bool → Nat) (f : Field) : DefField :=
+  match defFieldAttr c false true f with
+  | .ok a => defField enum f a
+  | _ => { name := identOf (fname f) }
+
+def defVariantOf (c : Ctx) (enum : String × Bool → Nat) (v : Variant) : DefVariant :=
+  { name := identOf v.name, shape := v.shape, fields := v.fields.map (defFieldOf c enum),
+    flag := match defVariantAttr c true v with | .ok va => va.flag | _ => false }
+
+/-- The Default configuration of a struct or enum (unions are not bridged). -/
+def defType (c : Ctx) (enum : String × Bool → Nat) : DefType :=
+  match c.d.kind with
+  | .enum => .enum (c.d.variants.map (defVariantOf c enum))
+  | _ => .struct (defVariantOf c enum (c.d.variants.headD {}))
+
 /-! ### what Rust guarantees about the definition itself -/
 
 /-- Field names of a struct-like variant are pairwise distinct; unit variants have no fields. -/
